@@ -23,8 +23,10 @@
    residue structure of a molecule.  The property speaks of coordinate changes only.  In particular the
    consistency test of the Atom / Molecule constructors (gro name = top name, same number of atoms) is not
    re-evaluated by the model: its operands cannot change. *)
-From Coq Require Import List ZArith Arith String Bool.
+From Coq Require Import String.
+From Coq Require Import List ZArith Arith Bool.
 Import ListNotations.
+Local Open Scope list_scope.
 From GM Require Import Base.Res Base.Scalar Base.Vec Model.Aux.
 
 (* ------------------------------------------------------------------------------------------------ *)
@@ -209,21 +211,15 @@ Definition write_g (g : list gcell) (lws : list (loc * (gcell -> gcell))) : list
 Definition write_t (t : list tcell) (lws : list (loc * (tcell -> tcell))) : list tcell :=
   fold_left (fun t lw => upd t (fst lw) (snd lw)) lws t.
 
-(* residue index of every atom: Molecule._each_atom_resid *)
-Fixpoint each_atom_resid_from (k : nat) (rs : list (list loc)) : list nat :=
-  match rs with
-  | [] => []
-  | r :: rs' => map (fun _ => k) r ++ each_atom_resid_from (S k) rs'
-  end.
-Definition each_atom_resid (m : mol) : list nat := each_atom_resid_from 0 (m_res m).
+(* `for atom, res_index in zip(self, self._each_atom_resid): ... new_resids[res_index]` : the value written
+   to every atom is the one of its residue (_each_atom_resid = [k] * len(residue k), by construction);
+   used after the length test len(new_resids) == len(self.resids) *)
+Definition per_atom {A} (rs : list (list A)) (rids : list Z) : list Z :=
+  concat (map (fun p => map (fun _ => snd p) (fst p)) (combine rs rids)).
 
-(* what the caller can observe of a molecule: the content of its gro cells residue by residue and the
-   top_resid of every atom *)
-Definition dump := (list (list gcell) * list Z)%type.
-Definition dump_mol (h : heap) (m : mol) : res dump :=
-  let* cs := mapM (read_g h) (m_res m) in
-  let* ts := read_t h (m_top m) in
-  Ok (cs, map t_resid ts).
+(* what the caller observes of a molecule: the content of its gro cells, residue by residue *)
+Definition dump := list (list gcell).
+Definition dump_mol (h : heap) (m : mol) : res dump := mapM (read_g h) (m_res m).
 
 (* _restore_point for every target atom, in order (reads self._refsystems[_equivalences[k]]) *)
 Definition restore_all (rs : list (nat * fr)) (ec : list (nat * vec)) : res (list vec) :=
@@ -267,7 +263,7 @@ Definition call (st : state) (harg : nat) : state * res dump :=
               if negb (Nat.eqb (length rids) (length (m_res nm))) then
                 (mkSt h2 (s_objs st) em', Err EValue)      (* ValueError: nothing written by the setter *)
               else
-                match (let* per := mapM (nth_res rids) (each_atom_resid nm) in
+                match (let per := per_atom (m_res nm) rids in
                        let* a := zip_res (m_atoms nm) per in
                        let* b := zip_res (m_top nm) per in Ok (a, b)) with
                 | Err e => (mkSt h2 (s_objs st) em', Err e)
@@ -346,8 +342,7 @@ Definition result_of (ec : list (nat * vec)) (g : graph) (tcells : list (list gc
   let* ps' := restore_all frs ec in
   if negb (Nat.eqb (length ps') (length (concat tcells))) then Err EIndex else
   if negb (Nat.eqb (length rids) (length tcells)) then Err EValue else
-  let cs := map (fun rc => map (set_gresid (snd rc)) (fst rc)) (combine (set_positions tcells ps') rids) in
-  Ok (cs, concat (map (fun rc => map (fun _ => snd rc) (fst rc)) (combine tcells rids))).
+  Ok (map (fun rc => map (set_gresid (snd rc)) (fst rc)) (combine (set_positions tcells ps') rids)).
 
 End Machine.
 
